@@ -69,6 +69,11 @@ func actorDirS(scheme, host, name string) *ActorDir {
 		scheme = "https"
 	}
 	base := scheme + "://" + host + "/u/" + name
+	if name == "qroot" {
+		// its outbox is the very IRI the others extend with a query string
+		return &ActorDir{Name: name, ID: base, Inbox: scheme + "://" + host + "/boxes-in", Outbox: scheme + "://" + host + "/boxes",
+			Followers: base + "/followers", Following: base + "/following", Liked: base + "/liked"}
+	}
 	if strings.HasPrefix(name, "q") {
 		q := scheme + "://" + host + "/boxes?user=" + name + "&box="
 		return &ActorDir{Name: name, ID: base, Inbox: q + "inbox", Outbox: q + "outbox",
